@@ -837,8 +837,12 @@ func runHistory(cfg worldCfg, hist []absStep, seed int64) (res execResult) {
 				relay = flows[id].index
 			case st.Relay == "unknown":
 				relay = "bm8tc3VjaC1pbmRleA"
-			case st.Relay == "empty":
-				relay = ""
+			case st.Relay == "empty", st.Relay == "empty-present":
+				relay = "" // absent, or the field present with an empty value (an auto-post form whose relay state was lost)
+			case strings.HasPrefix(st.Relay, "long:"):
+				var n int
+				fmt.Sscanf(st.Relay, "long:%d", &n)
+				relay = "/" + strings.Repeat("x", n-1)
 			case st.Relay == "url":
 				relay = "https://evil.example.com/landing"
 			case strings.HasPrefix(st.Relay, "="):
@@ -867,7 +871,7 @@ func runHistory(cfg worldCfg, hist []absStep, seed int64) (res execResult) {
 					}
 				}()
 				form := url.Values{"SAMLResponse": {a.response}}
-				if relay != "" {
+				if relay != "" || st.Relay == "empty-present" {
 					form.Set("RelayState", relay)
 				}
 				req := httptest.NewRequest("POST", target, strings.NewReader(form.Encode()))
@@ -1049,7 +1053,7 @@ func (g *histGen) randJar(own int) []absCookie {
 			other = -1
 		}
 	}
-	switch r.Intn(17) {
+	switch r.Intn(18) {
 	case 0, 1, 2, 3, 4: // full
 		full()
 	case 5: // empty
@@ -1095,6 +1099,11 @@ func (g *histGen) randJar(own int) []absCookie {
 		if other >= 0 {
 			jar = append(jar, absCookie{Src: "tracking", Step: other, Name: "own"})
 		}
+	case 17: // application cookies before and after the tracking cookies
+		n := []int{1, 31, 32, 33, 100}[r.Intn(5)]
+		jar = append(jar, apps(n, "b")...)
+		full()
+		jar = append(jar, apps(r.Intn(3), "a")...)
 	case 16: // genuine own cookie, plus a live cookie (own or another flow's) under a name that is not its index
 		if own >= 0 {
 			jar = append(jar, absCookie{Src: "tracking", Step: own, Name: "own"})
@@ -1136,7 +1145,7 @@ func (g *histGen) randJar(own int) []absCookie {
 
 func (g *histGen) randRelay(own int) string {
 	r := g.c.Rng
-	switch r.Intn(11) {
+	switch r.Intn(13) {
 	case 0, 1, 2, 3, 4:
 		return "faithful"
 	case 5:
@@ -1152,9 +1161,22 @@ func (g *histGen) randRelay(own int) string {
 		return "url"
 	case 9:
 		return "=third"
+	case 11:
+		return "empty-present"
+	case 12:
+		return []string{"long:80", "long:255", "long:255", "long:4096"}[r.Intn(4)]
 	default:
 		return "=/protected/a?x=1"
 	}
+}
+
+// apps returns n cookies the application itself set (unrelated to the middleware)
+func apps(n int, tag string) []absCookie {
+	out := make([]absCookie, n)
+	for i := range out {
+		out[i] = absCookie{Src: "garbage", Step: i, Name: fmt.Sprintf("=app-%s%d", tag, i)}
+	}
+	return out
 }
 
 func randomHistory(c *Ctx, cfg worldCfg, maxLen int) []absStep {
@@ -1290,6 +1312,17 @@ func directedHistories(cfg worldCfg) map[string][]absStep {
 		absStep{Op: "page", URL: "/protected/a?x=1", Jar: []absCookie{{Src: "session", Step: 2, Name: "session"}}})
 	h["broken-writer-then-flows"] = mk(absStep{Op: "start-broken-writer", URL: "/protected/z"}, start("/protected/a?x=1"), absStep{Op: "start-broken-writer", URL: "/protected/y"},
 		start("/protected/b"), answer(3, "alice"), answer(1, "alice"), deliver(4, "faithful", tr(1), tr(3)), deliver(5, "faithful", tr(1), tr(3)))
+	// RelayState at the ACS: absent / present but empty / long values
+	h["relay-present-empty"] = mk(start("/protected/a?x=1"), answer(0, "alice"), deliver(1, "empty-present", tr(0)), deliver(1, "empty", tr(0)), deliver(1, "empty-present"))
+	for _, n := range []int{80, 255, 4096} {
+		h[fmt.Sprintf("relay-long-%d", n)] = mk(start("/protected/a?x=1"), answer(0, "alice"), deliver(1, fmt.Sprintf("long:%d", n), tr(0)), deliver(1, "faithful", tr(0)))
+	}
+	// the browser presents n unrelated cookies before (and after) the tracking cookie
+	for _, n := range []int{0, 1, 31, 32, 33, 100} {
+		jar := append(append(apps(n, "b"), tr(0), tr(1)), apps(2, "a")...)
+		h[fmt.Sprintf("app-cookies-before-%03d", n)] = mk(start("/protected/a?x=1"), start("/protected/b"), answer(1, "alice"), answer(0, "alice"),
+			absStep{Op: "deliver", Answer: 2, Relay: "faithful", Jar: jar}, absStep{Op: "deliver", Answer: 3, Relay: "faithful", Jar: jar})
+	}
 	h["no-cookie"] = mk(start("/protected/a?x=1"), answer(0, "alice"), deliver(1, "faithful"))
 	h["no-cookie-no-relay"] = mk(start("/protected/a?x=1"), answer(0, "alice"), deliver(1, "empty"))
 	h["cookie-no-relay-default-redirect"] = mk(start("/protected/a?x=1"), answer(0, "alice"), deliver(1, "empty", tr(0)))
@@ -1337,7 +1370,37 @@ func directedHistories(cfg worldCfg) map[string][]absStep {
 		deliver(2, "faithful", tr(0), tr(3)), deliver(2, "flow:3", tr(0), tr(3)))
 	h["page-with-tracking-token-as-session"] = mk(start("/protected/a?x=1"), absStep{Op: "page", URL: "/protected/b", Jar: []absCookie{{Src: "tracking", Step: 0, Name: "session"}}})
 	h["https-request-on-acs"] = mk(start("/protected/a?x=1"), answer(0, "alice"), absStep{Op: "deliver", Answer: 1, Relay: "faithful", Jar: []absCookie{tr(0)}, HTTPS: true})
+	if !cfg.CustomRelay && !cfg.AllowIDP && cfg.MidS == 90 && cfg.DefaultRedirect == "" {
+		// n logins pending at once; every one of them completes, whatever its position among the cookies
+		for _, n := range []int{2, 33, 40} {
+			if n == 40 && !cfg.Post {
+				continue
+			}
+			if n == 33 && cfg.Post {
+				continue
+			}
+			var steps []absStep
+			var jar []absCookie
+			for i := 0; i < n; i++ {
+				steps = append(steps, start(fmt.Sprintf("/protected/p%d", i)))
+				jar = append(jar, tr(i))
+			}
+			for i := 0; i < n; i++ {
+				steps = append(steps, answer(n-1-i, "alice"))
+			}
+			for i := 0; i < n; i++ {
+				steps = append(steps, absStep{Op: "deliver", Answer: n + i, Relay: "faithful", Jar: jar})
+			}
+			h[fmt.Sprintf("pending-logins-%02d", n)] = mk(steps...)
+		}
+	}
 	if cfg.CustomRelay {
+		// long RelayStateFunc values: they reach the IdP unchanged and the flows complete
+		for _, n := range []int{79, 80, 81, 255, 4096} {
+			v := strings.Repeat("r", n-2)
+			h[fmt.Sprintf("custom-relay-length-%04d", n)] = mk(absStep{Op: "start", URL: "/protected/a?x=1", Relay0: v + "-1"}, absStep{Op: "start", URL: "/protected/b", Relay0: v + "-2"},
+				answer(1, "alice"), answer(0, "bob"), deliver(2, "faithful", tr(0), tr(1)), deliver(3, "faithful", tr(0), tr(1)))
+		}
 		for i, v := range []string{"a+b", "q&r", "p%41", "h#frag", "%2B%26", "m!$'*^`|~.", "a+&#%", "x&RelayState", "+", "&", "%", "#"} {
 			h[fmt.Sprintf("custom-relay-metachar-%02d", i)] = mk(absStep{Op: "start", URL: "/protected/a?x=1", Relay0: v}, absStep{Op: "start", URL: "/protected/b", Relay0: v + "2"},
 				answer(1, "alice"), answer(0, "bob"), deliver(2, "faithful", tr(0), tr(1)), deliver(3, "faithful", tr(0), tr(1)))
